@@ -34,7 +34,7 @@ class StubTable:
     def add_many(self, infos):
         added = []
         for i in infos:
-            p = i.url_properties
+            p = i.properties
             if self.add(i.url, level=(p.level if p and p.level is not None else 0),
                         parent_url=p.parent_url if p else None, root_url=p.root_url if p else None,
                         inline_level=p.inline_level if p else None):
